@@ -19,6 +19,9 @@ func (x *Exec) loopKeys(n ast.Node) []string {
 		if as, ok := l.Init.(*ast.AssignStmt); ok && len(as.Lhs) == 1 {
 			keys = append(keys, "for "+normSpace(x.e.srcText(as.Lhs[0])))
 		}
+		if id, ok := l.Post.(*ast.IncDecStmt); ok && l.Init == nil {
+			keys = append(keys, "for "+normSpace(x.e.srcText(id.X)))
+		}
 		if l.Cond != nil {
 			keys = append(keys, "while "+normSpace(x.e.srcText(l.Cond)))
 		} else {
@@ -41,6 +44,7 @@ func (x *Exec) loopInvariants(n ast.Node) []*Clause {
 		for _, k := range keys {
 			if c.LoopKey == k {
 				out = append(out, c)
+				x.anchorHits[fr.fi.Key+"|loop "+c.LoopKey+"|"+c.Label]++
 				break
 			}
 		}
@@ -125,8 +129,13 @@ func (x *Exec) runLoop(st *State, ls loopSpec) *State {
 	x.pendingLabel = ""
 	invs := x.loopInvariants(ls.node)
 	lname := x.loopName(ls.node)
-	// 1. discovery of the write set
+	// 1. discovery of the write set: only what differs on a path that comes back to the loop
+	// head needs to be havocked (paths that leave the loop keep their own, precise state).
+	backWrites := map[string]bool{}
+	backAssigned := map[types.Object]bool{}
 	d := x.discover(st, func(s *State) {
+		x.materialize(s)
+		start := s.Copy()
 		lc := &loopCtx{label: label}
 		fr.loops = append(fr.loops, lc)
 		c := "true"
@@ -134,14 +143,52 @@ func (x *Exec) runLoop(st *State, ls loopSpec) *State {
 			c = ls.cond(s)
 		}
 		s.Assume(c)
-		if ls.pre != nil {
-			ls.pre(s)
+		var end *State
+		func() {
+			defer func() {
+				if r := recover(); r != nil {
+					if _, ok := r.(deadPanic); !ok {
+						panic(r)
+					}
+					end = nil
+				}
+			}()
+			if ls.pre != nil {
+				ls.pre(s)
+			}
+			end = x.block(ls.body.List, s)
+		}()
+		back := lc.conts
+		if end != nil {
+			back = append(back, end)
 		}
-		s = x.block(ls.body.List, s)
-		if s != nil && ls.post != nil {
-			ls.post(s)
+		for _, b := range back {
+			if ls.post != nil {
+				b = ls.post(b)
+				if b == nil {
+					continue
+				}
+			}
+			x.materialize(b)
+			for k, v := range b.heap {
+				if start.heap[k] != v {
+					backWrites[k] = true
+				}
+			}
+			for o, v := range b.vars {
+				if sv, ok := start.vars[o]; ok && sv.String() != v.String() {
+					backAssigned[o] = true
+				}
+			}
+			for o, v := range b.cells {
+				if start.cells[o] != v {
+					backAssigned[o] = true
+				}
+			}
 		}
 	})
+	d.writes = backWrites
+	d.assigned = backAssigned
 	// 2. invariants on entry
 	for _, c := range invs {
 		g := x.cevalClauseAt(c, st, fr, bodyPos(ls))
@@ -243,6 +290,10 @@ func (x *Exec) runLoop(st *State, ls loopSpec) *State {
 	}
 	if len(outs) == 0 {
 		return nil
+	}
+	if x.splitLoop == ls.node && x.vc.quiet == 0 && len(outs) > 1 && len(outs) <= 6 {
+		x.loopExits = outs
+		return outs[0]
 	}
 	m, _ := x.mergeStates(outs, nil)
 	return m
